@@ -30,12 +30,12 @@ func goid() int64 {
 
 // ledger of evicted-callback invocations
 type ledgerEntry struct {
-	K      int
-	V      any
-	T      int64 // ticket when the callback started
-	TEnd   int64 // ticket when it returned
-	Gid    int64
-	CbID   int
+	K    int
+	V    any
+	T    int64 // ticket when the callback started
+	TEnd int64 // ticket when it returned
+	Gid  int64
+	CbID int
 }
 
 type ledger struct {
@@ -59,25 +59,25 @@ func (l *ledger) cb(id int) func(k int, v any) {
 }
 
 type cacheRound struct {
-	spec     cacheSpec
-	family   string
-	workers  int
-	phases   int
-	progs    [][][]wop // [phase][worker][]
-	advance  []int64   // clock advance before each phase
-	hot      []int
-	fillLo   int
-	fillHi   int
-	fillers  int
-	level    int
-	focus    vshim.Kind
-	procs    int
-	polling  bool
-	whole    bool
-	janitor  bool
-	withCb   bool
-	defExp   time.Duration
-	closed   bool // C06 closed conservation scenario
+	spec    cacheSpec
+	family  string
+	workers int
+	phases  int
+	progs   [][][]wop // [phase][worker][]
+	advance []int64   // clock advance before each phase
+	hot     []int
+	fillLo  int
+	fillHi  int
+	fillers int
+	level   int
+	focus   vshim.Kind
+	procs   int
+	polling bool
+	whole   bool
+	janitor bool
+	withCb  bool
+	defExp  time.Duration
+	closed  bool // C06 closed conservation scenario
 }
 
 func (rd *cacheRound) desc() string {
